@@ -122,6 +122,9 @@ type Inst struct {
 	Sym      map[string]string
 	Backends map[string]*envx.Backend
 	Users    map[string]string // ntlm / local users (name -> password)
+	lastMintBrowser *Browser
+	groups          map[string]*loginGroup
+	groupMu         sync.Mutex
 	lastMintCookies string     // Cookie header of the browser that did the latest /connect login (scripts run one at a time per instance)
 	krbDir   string
 }
@@ -347,7 +350,12 @@ func (r *Runner) NewInst(cfg ScriptCfg) (*Inst, error) {
 		in.Backends[b.name] = be
 		in.Sym["P"+b.name] = fmt.Sprint(be.Port)
 	}
-	in.Sym["PD"] = fmt.Sprint(envx.ClosedPort())
+	pd := envx.ClosedPort()
+	in.Sym["PD"] = fmt.Sprint(pd)
+	// another host that listens on the very port number that is closed on 127.0.0.1 (an "alternate" of a dead target)
+	if be, err := envx.NewBackendAt("127.0.0.2", pd); err == nil {
+		in.Backends["F"] = be
+	}
 	in.Sym["H1"] = "127.0.0.1"
 	in.Sym["H2"] = "127.0.0.2"
 	in.Sym["HL"] = "localhost"
@@ -700,9 +708,49 @@ func (i *Inst) Mint(sub, hostParam, localIP, xff string) (tok string, file map[s
 
 // MintAs is Mint with a login name (preferred_username) that may differ from
 // the subject the IdP's userinfo endpoint reports.
+// MintInGroup downloads a connection file with the browser session of a login group: the first call of a group logs
+// in, later calls use the same logged-in session (same IdP access token) for another download.
+func (i *Inst) MintInGroup(group, sub, loginName, hostParam, localIP, xff string) (tok string, file map[string]string, at string, err error) {
+	i.groupMu.Lock()
+	g := i.groups[group]
+	i.groupMu.Unlock()
+	if g == nil {
+		tok, file, at, err = i.MintAs(sub, loginName, hostParam, localIP, xff)
+		if err == nil {
+			i.groupMu.Lock()
+			if i.groups == nil {
+				i.groups = map[string]*loginGroup{}
+			}
+			i.groups[group] = &loginGroup{b: i.lastMintBrowser, at: at}
+			i.groupMu.Unlock()
+		}
+		return
+	}
+	q := ""
+	if hostParam != "" {
+		q = "host=" + url.QueryEscape(hostParam)
+	}
+	hops, err := g.b.Connect(q, 3)
+	if err != nil {
+		return "", nil, g.at, err
+	}
+	last := hops[len(hops)-1]
+	if last.Status != 200 {
+		return "", nil, g.at, fmt.Errorf("second download of login group %s ended with %d", group, last.Status)
+	}
+	file, _ = ParseRDP(last.Body)
+	return file["gatewayaccesstoken"], file, g.at, nil
+}
+
+type loginGroup struct {
+	b  *Browser
+	at string
+}
+
 func (i *Inst) MintAs(sub, loginName, hostParam, localIP, xff string) (tok string, file map[string]string, at string, err error) {
 	l := &envx.Login{Sub: sub, Claims: map[string]interface{}{"preferred_username": loginName}}
 	b := i.NewBrowser(localIP, xff)
+	i.lastMintBrowser = b
 	b.LoginID = i.IdP.Register(l)
 	q := ""
 	if hostParam != "" {
